@@ -375,7 +375,12 @@ fn run() -> ! {
     // First, read from stdin if available (piped inputs)
     let mut stdin_content = String::new();
     if should_parse_piped_inputs {
-        let _ = io::stdin().read_to_string(&mut stdin_content);
+        // Piped inputs that cannot be read (e.g. not valid UTF-8) are an input error like
+        // any other malformed document; they must not be dropped silently
+        if let Err(e) = io::stdin().read_to_string(&mut stdin_content) {
+            eprintln!("[input error] Failed to read stdin: {}", e);
+            std::process::exit(1);
+        }
         stdin_consumed = true;
 
         if !stdin_content.trim().is_empty() {
